@@ -73,8 +73,11 @@ def public_names(h, wd):
         badl = {int(x) for x in re.findall(r'<stdin>:(\d+):', err)}
         nh = 1
         cand = [n for i, n in enumerate(cand) if (i + nh + 1) not in badl]
-    types = sorted(set(re.findall(r'\}\s*(Avtp_\w+_t)\s*;', pre)))
-    structs = sorted(set(re.findall(r'struct\s+(avtp_\w+)\s*\{', pre)))
+    # every typedef'd struct/union/enum type and every tagged struct of the repository headers
+    own = re.sub(r'^.*?(?=typedef|struct|union|enum)', '', pre, count=1, flags=re.S)
+    types = sorted({t for t in re.findall(r'\}\s*(?:__attribute__\s*\(\([^)]*\)\)\s*)?(\w+)\s*;', pre)
+                    if re.match(r'(Avtp_|Vss|vss_|Vss_|frame_t)', t)})
+    structs = sorted(set(re.findall(r'struct\s+(avtp_\w+|vss_\w+)\s*\{', pre)))
     return sorted(set(enums)), sorted(set(good)), types, structs
 
 
